@@ -1,3 +1,6 @@
 pub mod inv;
 pub mod c01;
 pub mod setup;
+pub mod c08;
+pub mod c07;
+pub mod c03;
